@@ -49,6 +49,14 @@ def handlePlatt (toks : List String) : Option String := do
   | none => some "panic"
   | some ps => some ("ok " ++ showList showPr ps)
 
+/-- `platt_predict::<f32>`: the linear form is evaluated in `f32`, the cast is the identity -/
+def handlePlatt32 (toks : List String) : Option String := do
+  let a ← (arg toks "a").bind parseF32; let b ← (arg toks "b").bind parseF32
+  let xs ← (arg toks "xs").bind (parseList parseF32)
+  match plattBatch (α := Float32) (β := Float32) (fun v => v) (fun (r : List Float32) => r) a b xs with
+  | none => some "panic"
+  | some ps => some ("ok " ++ showList showPr ps)
+
 def handleKmeans (toks : List String) : Option String := do
   let cents ← argF64s2 toks "cents"; let rows ← argF64s2 toks "rows"
   let res ← match arg toks "pre" with
@@ -129,6 +137,7 @@ def handle (toks : List String) : String :=
     | "mt" :: rest => handleMt rest
     | "mc" :: rest => handleMc rest
     | "platt" :: rest => handlePlatt rest
+    | "platt32" :: rest => handlePlatt32 rest
     | "kmeans" :: rest => handleKmeans rest
     | "affine" :: rest => handleAffine rest
     | "linmap" :: rest => handleLinmap rest
